@@ -597,6 +597,9 @@ type c12Odd struct {
 	Maps  []map[string]float64
 	I64   []int64
 	Objs  []c12Leaf
+	Nums  []float64
+	Strs  []string
+	NumsL []float64
 }
 
 func c12Alone(r *mon.Run, rl *mon.RaceLog) mon.Workload {
@@ -631,10 +634,18 @@ func c12Alone(r *mon.Run, rl *mon.RaceLog) mon.Workload {
 			[]string{"ao[*].n", "ao[*].o.n", "o.o.n", "an[1:]", "ao[*].an[]", "aa[][]", "length(an)", "@"}},
 		{"typed slices of unusual element types", func() interface{} {
 			return &c12Odd{Ints: []int{3, 1, 2}, Flags: []bool{true, false}, Grid: [][]string{{"b", "a"}, {"c"}}, Ptrs: []*c12Leaf{{2, "x"}, nil, {1, "y"}}, U8: []uint8{7, 8}, F32: []float32{1.5, 2.5}, Names: []c12Named{"q", "p"},
-				Any: []interface{}{float64(1), "s", nil}, Maps: []map[string]float64{{"a": 2}, {"a": 1}}, I64: []int64{9, 8, 7}, Objs: []c12Leaf{{3, "c"}, {1, "a"}}}
+				Any: []interface{}{float64(1), "s", nil}, Maps: []map[string]float64{{"a": 2}, {"a": 1}}, I64: []int64{9, 8, 7}, Objs: []c12Leaf{{3, "c"}, {1, "a"}}, Nums: []float64{3, 1, 2, 0.5, -4}, Strs: []string{"pear", "fig", "apple", "date"},
+				NumsL: func() []float64 {
+					a := make([]float64, 3000)
+					for k := range a {
+						a[k] = float64((k*7919)%3001) - 1500
+					}
+					return a
+				}()}
 		}, []string{"length(Ints)", "reverse(Flags)", "Grid[0]", "to_array(Ints)", "contains(Ints, `1`)", "join(',', Grid[0])", "map(&@, Ints)", "not_null(Ints)", "sort_by(Objs, &N)[*].S", "max_by(Maps, &a)", "Ints[1:]", "Grid[][]", "length(U8)",
 			"[length(Ints), length(Flags), length(Grid), length(F32), length(Names), length(I64), length(Maps), length(Ptrs)]", "reverse(Names)", "reverse(I64)", "to_array(F32)", "map(&[0], Grid)", "Ptrs[*].S", "length(Ptrs[*])", "not_null(U8, Ints)",
-			"contains(Names, 'q')", "to_string(Ints)", "to_string(@)", "type(Flags)", "[reverse(Ints), reverse(U8), reverse(F32), reverse(Grid)]", "map(&N, Objs)", "Any[?@]", "merge(Maps[0], Maps[1])", "keys(Maps[0])", "sort(Ints)", "max(I64)", "sum(F32)", "avg(U8)", "join('', Names)"}},
+			"contains(Names, 'q')", "to_string(Ints)", "to_string(@)", "type(Flags)", "[reverse(Ints), reverse(U8), reverse(F32), reverse(Grid)]", "map(&N, Objs)", "Any[?@]", "merge(Maps[0], Maps[1])", "keys(Maps[0])", "sort(Ints)", "max(I64)", "sum(F32)", "avg(U8)", "join('', Names)",
+			"sort(Nums)", "sort(Strs)", "max(Nums)", "min(Strs)", "sum(Nums)", "avg(Nums)", "reverse(Nums)", "sort(Nums)[0]", "[sort(Nums), Nums]", "sort(NumsL)[0]", "sort(NumsL)[-1]", "sum(NumsL)", "max(NumsL)", "join(',', Strs)", "sort_by(Nums, &@)", "length(sort(Strs))", "reverse(sort(Nums))", "map(&abs(@), Nums)", "Nums[?@ > `1`]", "contains(Strs, 'fig')"}},
 		{"a list of 6000 numbers", func() interface{} { return big(6000, false) },
 			[]string{"sort(@)[0]", "sort(@)[-1]", "sort(@)[2999]", "reverse(sort(@))[0]", "sort_by(@, &@)[0]", "max(@)", "min(@)", "sum(@)", "length(sort(@))", "sort(@)[:3]", "sort(@[:4096])[-1]", "sort(@[:4097])[0]", "map(&abs(@), @)[-1]", "[?@ > `999990`]", "length([?@ < `0`])", "sort(@) == sort(reverse(@))"}},
 		{"a list of 5000 strings", func() interface{} { return big(5000, true) },
